@@ -93,87 +93,174 @@ def _next_pow2_above(v: int) -> int:
     return 1 if v <= 0 else 1 << v.bit_length()
 
 
+def _enum_roles(fi: FuncInfo) -> dict | None:
+    """Discover the roles of the locals of an enum-body parser by dataflow shape, not by name:
+    members[K] = X inside the member loop, X = N if not E else <Expression(.., E).evaluate(..)>, T compared with 'flag'."""
+    nodes = list(walk_body(fi.node.body))
+    dict_inits = {s.targets[0].id for s in nodes if isinstance(s, ast.Assign) and len(s.targets) == 1 and isinstance(s.targets[0], ast.Name)
+                  and isinstance(s.value, ast.Dict) and not s.value.keys}
+    for st in nodes:
+        if not (isinstance(st, ast.Assign) and len(st.targets) == 1 and isinstance(st.targets[0], ast.Subscript)):
+            continue
+        t = st.targets[0]
+        if not (isinstance(t.value, ast.Name) and t.value.id in dict_inits and isinstance(t.slice, ast.Name) and isinstance(st.value, ast.Name)):
+            continue
+        V, K, X = t.value.id, t.slice.id, st.value.id
+        sel = [a for a in nodes if isinstance(a, ast.Assign) and len(a.targets) == 1 and norm(a.targets[0]) == X and isinstance(a.value, ast.IfExp)]
+        if len(sel) != 1:
+            continue
+        ife = sel[0].value
+        if not (isinstance(ife.body, ast.Name) and isinstance(ife.test, ast.UnaryOp) and isinstance(ife.test.op, ast.Not) and isinstance(ife.test.operand, ast.Name)):
+            continue
+        N, E = ife.body.id, ife.test.operand.id
+        flag_tests = [c for c in nodes if isinstance(c, ast.Compare) and isinstance(c.left, ast.Name) and len(c.comparators) == 1
+                      and is_const(c.comparators[0]) and const_value(c.comparators[0]) == "flag"]
+        T = flag_tests[0].left.id if flag_tests else None
+        return {"V": V, "K": K, "X": X, "N": N, "E": E, "T": T, "store": st, "select": sel[0]}
+    return None
+
+
+def _assigns(st: ast.stmt, name: str) -> bool:
+    return any(isinstance(x, (ast.Assign, ast.AugAssign, ast.AnnAssign)) and any(norm(t) == name for t in (x.targets if isinstance(x, ast.Assign) else [x.target]))
+               for x in ast.walk(st))
+
+
+def _stmt_list_of(fi: FuncInfo, target: ast.stmt) -> list[ast.stmt] | None:
+    for n in ast.walk(fi.node):
+        for f in ("body", "orelse", "finalbody"):
+            lst = getattr(n, f, None)
+            if isinstance(lst, list) and any(x is target for x in lst):
+                return lst
+    return None
+
+
 def numbering_rule(repo: Repo, rep: Report, rid: str) -> None:
     rep.rule(rid, "member numbering agrees between the token parser and the legacy parser and follows C: enums start at 0 and continue with "
-                  "previous + 1, flags start at 1 and continue with the next higher power of two (arms folded over sample values, not matched as text); "
-                  "keys are stripped")
+                  "previous + 1, flags start at 1 and continue with the next higher power of two (statements folded over sample values; the locals are "
+                  "identified by their dataflow roles, not by name); keys are stripped")
     from ..minieval import Evaluator, Refused
 
     a = repo.func("parser.py", "TokenParser._enum")
     b = repo.func("parser.py", "CStyleParser._enums")
     samples = list(range(0, 70)) + [127, 128, 255, 256, 1023, 1024, 65535, 65536, 2**31, 2**32 - 1, 2**63, 2**64 + 5]
     for name, fi in (("token", a), ("legacy", b)):
-        # initial value:  nextval = 0 ; if enumtype == "flag": nextval = 1
-        init = [s for s in walk_body(fi.node.body) if (isinstance(s, ast.Assign) and norm(s.targets[0]) == "nextval" and is_const(s.value))]
-        first = next((s for s in walk_body(fi.node.body) if isinstance(s, ast.Assign) and norm(s.targets[0]) == "nextval"), None)
-        flag_init = next((s for s in walk_body(fi.node.body) if isinstance(s, ast.If) and "enumtype" in norm(s.test) and len(s.body) == 1
-                          and isinstance(s.body[0], ast.Assign) and norm(s.body[0].targets[0]) == "nextval" and is_const(s.body[0].value)), None)
+        roles = _enum_roles(fi)
+        if roles is None or roles["T"] is None:
+            rep.fail(rid, f"{fi.key}:roles", f"{fi.qualname}: no 'members[key] = value' store fed by 'value = next if not explicit else evaluate(explicit)' found", fi.loc())
+            continue
+        V, K, X, N, E, T = (roles[k] for k in "VKXNET")
+        nodes = list(walk_body(fi.node.body))
+        # ---- initial value: the statements assigning N in the statement list that holds its first assignment, before the member loop
+        first = next((s for s in nodes if isinstance(s, ast.Assign) and norm(s.targets[0]) == N), None)
+        lst = _stmt_list_of(fi, first) if first is not None else None
+        init: list[ast.stmt] = []
+        for s in lst or []:
+            if any(x is roles["store"] for x in ast.walk(s)):
+                break
+            if _assigns(s, N):
+                init.append(s)
         for kind, want in (("enum", 0), ("flag", 1)):
             try:
-                env = {"enumtype": kind}
-                ev = Evaluator(env)
-                ev.run([x for x in (first, flag_init) if x is not None], env)
-                got = env.get("nextval")
+                env = {T: kind}
+                Evaluator(env).run(init, env)
+                got = env.get(N)
             except Refused as e:
                 got = f"<not foldable: {e}>"
             rep.check(got == want, rid, f"{fi.key}:first-{kind}", f"first implicit {kind} value is {want}",
                       f"{fi.qualname}: the first implicit {kind} member gets {got}, C numbering starts at {want}", fi.loc(first))
-        # continuation arms
-        arm = next((s for s in walk_body(fi.node.body) if isinstance(s, ast.If) and "enumtype" in norm(s.test) and s.orelse and
-                    any(isinstance(x, ast.Assign) and norm(x.targets[0]) == "nextval" for x in s.body)), None)
-        if arm is None:
-            rep.fail(rid, f"{fi.key}:continuation", "no if/else selecting the continuation rule by enumtype", fi.loc())
+        # ---- continuation: the statements of the store's statement list that assign N (with their helpers), between the selection and the end of the iteration
+        loop_list = _stmt_list_of(fi, roles["store"]) or []
+        after = False
+        cont: list[ast.stmt] = []
+        for s in loop_list:
+            if s is roles["select"]:
+                after = True
+                continue
+            if after and s is not roles["store"]:
+                cont.append(s)
+        if not any(_assigns(s, N) for s in cont):
+            rep.fail(rid, f"{fi.key}:continuation", "the member loop no longer advances the implicit value after a member", fi.loc())
             continue
         for kind, oracle in (("flag", _next_pow2_above), ("enum", lambda v: v + 1)):
             bad = None
             try:
                 for v in samples:
-                    env = {"enumtype": kind, "val": v, "nextval": -12345}
-                    Evaluator(env).run([arm], env)
-                    if env["nextval"] != oracle(v):
-                        bad = (v, env["nextval"], oracle(v))
+                    env = {T: kind, X: v, N: -12345}
+                    Evaluator(env).run(cont, env)
+                    if env[N] != oracle(v):
+                        bad = (v, env[N], oracle(v))
                         break
             except Refused as e:
                 bad = ("not foldable", str(e), "")
             rep.check(bad is None, rid, f"{fi.key}:next-{kind}", f"{kind}: next implicit value follows the C rule on {len(samples)} sample values",
-                      f"{fi.qualname}: after {kind} value {bad[0] if bad else ''} the next implicit member gets {bad[1] if bad else ''}, expected {bad[2] if bad else ''}", fi.loc(arm))
-        stm = {norm(s) for s in walk_body(fi.node.body) if isinstance(s, ast.Assign)}
-        rep.check("values[key] = val" in stm and any(x.startswith("key = key.strip(") for x in stm), rid, f"{fi.key}:store", "stored under the stripped key",
-                  f"{fi.qualname}: the member is not stored under its stripped name", fi.loc())
-    for name, fi in (("token", a), ("legacy", b)):
-        pass
-    for name, fi in (("token", a), ("legacy", b)):
-        ev = [s for s in walk_body(fi.node.body) if isinstance(s, ast.Assign) and norm(s.targets[0]) == "val" and isinstance(s.value, ast.IfExp)]
-        ok = len(ev) == 1 and norm(ev[0].value.body) == "nextval" and norm(ev[0].value.test) == "not val" and "evaluate" in norm(ev[0].value.orelse)
-        rep.check(ok, rid, f"{fi.key}:explicit", "val = nextval if not val else <evaluate explicit value>", f"{fi.qualname}: explicit/implicit value selection changed", fi.loc())
-    ev = [s for s in walk_body(a.node.body) if isinstance(s, ast.Assign) and norm(s.targets[0]) == "val" and isinstance(s.value, ast.IfExp)]
-    rep.check(bool(ev) and norm(ev[0].value.orelse).endswith(".evaluate(values)"), rid, f"{a.key}:earlier-members", "explicit values may refer to earlier members",
-              "the token parser no longer evaluates explicit values over the members seen so far", a.loc())
-    # default underlying type and factory selection
-    for name, fi in (("token", a), ("legacy", b)):
-        txt = " ".join(norm(s) for s in fi.node.body)
-        rep.check("d['type'] = 'uint32'" in txt and "_make_flag" in txt and "_make_enum" in txt, rid, f"{fi.key}:factory", "uint32 default, flag/enum factory by keyword",
+                      f"{fi.qualname}: after {kind} value {bad[0] if bad else ''} the next implicit member gets {bad[1] if bad else ''}, expected {bad[2] if bad else ''}",
+                      fi.loc(cont[0] if cont else None))
+        stripped = any(isinstance(s, ast.Assign) and norm(s.targets[0]) == K and isinstance(s.value, ast.Call) and call_name(s.value) == "strip" and not s.value.args
+                       for s in nodes)
+        rep.check(stripped, rid, f"{fi.key}:store", "stored under the stripped key", f"{fi.qualname}: the member is not stored under its stripped name", fi.loc(roles["store"]))
+        # ---- explicit / implicit selection
+        ife = roles["select"].value
+        ev_calls = [c for c in ast.walk(ife.orelse) if isinstance(c, ast.Call) and call_name(c) == "evaluate"]
+        src_ok = any(isinstance(c, ast.Call) and call_name(c) == "Expression" and any(norm(x) == E for x in c.args) for c in ast.walk(ife.orelse))
+        rep.check(len(ev_calls) == 1 and src_ok, rid, f"{fi.key}:explicit", "value = next if not explicit else Expression(.., explicit).evaluate(..)",
+                  f"{fi.qualname}: explicit/implicit value selection changed", fi.loc(roles["select"]))
+        if fi is a:
+            rep.check(len(ev_calls) == 1 and [norm(x) for x in ev_calls[0].args] == [V], rid, f"{a.key}:earlier-members", "explicit values may refer to earlier members",
+                      "the token parser no longer evaluates explicit values over the members seen so far", a.loc(roles["select"]))
+        # ---- default underlying type and factory selection
+        consts = {const_value(c) for c in ast.walk(fi.node) if is_const(c)}
+        sel = [n for n in ast.walk(fi.node) if isinstance(n, (ast.If, ast.IfExp)) and isinstance(n.test, ast.Compare) and norm(n.test.left) == T
+               and isinstance(n.test.ops[0], ast.Eq) and const_value(n.test.comparators[0]) == "flag"]
+
+        def attrs(x) -> set[str]:
+            return {y.attr for z in (x if isinstance(x, list) else [x]) for y in ast.walk(z) if isinstance(y, ast.Attribute)}
+
+        fac_ok = any("_make_flag" in attrs(n.body) and "_make_enum" not in attrs(n.body) for n in sel) and "_make_enum" in attrs(fi.node)
+        rep.check("uint32" in consts and fac_ok, rid, f"{fi.key}:factory", "uint32 default, flag/enum factory by keyword",
                   f"{fi.qualname}: default underlying type or factory selection changed", fi.loc())
 
 
 def equality_rule(repo: Repo, rep: Report, rid: str) -> None:
-    rep.rule(rid, "class-scoped equality on both Enum and Flag: a member of another enum class is never equal; otherwise values compare; the hash "
-                  "includes the class; __ne__ negates __eq__")
+    rep.rule(rid, "class-scoped equality on both Enum and Flag: a member of another enum class is never equal; otherwise values compare (the body of "
+                  "__eq__ is folded over the six kinds of right-hand operand, so any equivalent arrangement of the tests passes); the hash includes the "
+                  "class; __ne__ negates __eq__")
+    from ..minieval import Evaluator, Host, Refused, Sym
+
     n = 0
-    bodies = {}
     for cls, rel in (("Enum", "types/enum.py"), ("Flag", "types/flag.py")):
         eq = repo.func(rel, f"{cls}.__eq__")
-        other = eq.params[1]
-        first = eq.body[0] if eq.body else None
-        ok = isinstance(first, ast.If) and isinstance(first.test, ast.BoolOp) and isinstance(first.test.op, ast.And) and \
-            f"isinstance({other}, {cls})" in norm(first.test) and f"{other}.__class__ is not self.__class__" in norm(first.test) and \
-            len(first.body) == 1 and norm(first.body[0]) == "return False"
+        me, other = eq.params[0], eq.params[1]
+        own, foreign = Sym("own-class"), Sym("foreign-class")
+        this = Sym("member:self", {"__class__": own, "value": 5, "_value_": 5})
+        cases = {
+            "same class, same value": (Sym("member:a", {"__class__": own, "value": 5, "_value_": 5}), True),
+            "same class, other value": (Sym("member:b", {"__class__": own, "value": 6, "_value_": 6}), False),
+            "other class, same value": (Sym("member:c", {"__class__": foreign, "value": 5, "_value_": 5}), False),
+            "other class, other value": (Sym("member:d", {"__class__": foreign, "value": 6, "_value_": 6}), False),
+            "plain int, same value": (5, True),
+            "plain int, other value": (6, False),
+        }
+        family = Sym(cls)
+
+        def isinst(o, k, family=family):
+            if k != family:
+                raise Refused(f"isinstance against {k}")
+            return isinstance(o, Sym) and o.label.startswith("member:")
+
+        bad = None
+        for label, (operand, want) in cases.items():
+            env = {me: this, other: operand, cls: family, "isinstance": Host(isinst), "type": Host(lambda o: o.attrs["__class__"])}
+            try:
+                r = Evaluator(env).run(eq.body, env)
+                got = r[1] if r[0] == "return" else "<no return>"
+            except Refused as e:
+                got = f"<not foldable: {e}>"
+            if got is not want:
+                bad = (label, got, want)
+                break
         n += 1
-        rep.check(ok, rid, f"{eq.key}:class-scope", "other-class members compare unequal first",
-                  f"{cls}.__eq__ does not start by returning False for members of another class ('{short(first, 80)}')", eq.loc())
-        rets = [norm(r.value) for r in walk_body(eq.node.body) if isinstance(r, ast.Return)]
-        n += 1
-        rep.check(rets[-1:] == [f"self.value == {other}"], rid, f"{eq.key}:value", "then compares values", f"{cls}.__eq__ returns {rets}", eq.loc())
+        rep.check(bad is None, rid, f"{eq.key}:class-scope", "members of another class compare unequal, otherwise the values compare (6 operand kinds folded)",
+                  f"{cls}.__eq__ gives {bad[1] if bad else ''} for an operand of kind '{bad[0] if bad else ''}', expected {bad[2] if bad else ''}", eq.loc())
         h = repo.func(rel, f"{cls}.__hash__")
         hv = [r.value for r in walk_body(h.node.body) if isinstance(r, ast.Return)]
         n += 1
@@ -183,9 +270,6 @@ def equality_rule(repo: Repo, rep: Report, rid: str) -> None:
         nv = [norm(r.value) for r in walk_body(ne.node.body) if isinstance(r, ast.Return)]
         n += 1
         rep.check(nv == [f"not self.__eq__({ne.params[1]})"] or nv == [f"not self == {ne.params[1]}"], rid, f"{ne.key}:ne", "negates __eq__", f"{cls}.__ne__ returns {nv}", ne.loc())
-        bodies[cls] = [re.sub(r"\b" + cls + r"\b", "K", norm(s)) for s in eq.body]
-    rep.check(bodies["Enum"] == bodies["Flag"], rid, "types:Enum/Flag.__eq__:siblings", "Enum.__eq__ and Flag.__eq__ are the same modulo the class name",
-              "Enum.__eq__ and Flag.__eq__ differ: one of the siblings was edited alone", repo.func("types/flag.py", "Flag.__eq__").loc())
     rep.floor(rid, "equality obligations", n, 6)
 
 
